@@ -23,8 +23,21 @@ func (r *yieldRewriter) ignoreKeyVal(k, v ast.Expr) (bool, bool) {
 }
 
 func (r *yieldRewriter) rewriteRanges(block *ast.BlockStmt) {
-	astutil.Apply(block, nil, func(c *astutil.Cursor) bool {
+	// goto is only legal in nested non-yield func lit (left native),
+	// the iterator declared in front of a rewritten range must not be jumped over there
+	var funcLits []*ast.FuncLit
+	inFuncLitWithGoto := func() bool {
+		return len(funcLits) > 0 && containsGoto(funcLits[len(funcLits)-1].Body)
+	}
+	astutil.Apply(block, func(c *astutil.Cursor) bool {
+		if lit, ok := c.Node().(*ast.FuncLit); ok {
+			funcLits = append(funcLits, lit)
+		}
+		return true
+	}, func(c *astutil.Cursor) bool {
 		switch n := c.Node().(type) {
+		case *ast.FuncLit:
+			funcLits = funcLits[:len(funcLits)-1]
 		case *ast.RangeStmt:
 			if _, labelled := c.Parent().(*ast.LabeledStmt); labelled {
 				// labels are only legal in nested non-yield func lit, leave the range stmt native
@@ -32,10 +45,15 @@ func (r *yieldRewriter) rewriteRanges(block *ast.BlockStmt) {
 				r.assert(noYield, n, "labelled range with yield not supported")
 				return true
 			}
-			do := func(ctor string, arg ast.Expr) {
+			do := func(ctor string, args ...ast.Expr) {
 				factory := r.SeqSelect(ctor)
-				iter := X.Call(factory, arg)
+				iter := X.Call(factory, args...)
 				init, forStmt := r.rewriteRangeToForIter(n, iter)
+				if inFuncLitWithGoto() {
+					// goto L; for range xs {}; L:  =>  jumps over declaration of ɪʇ
+					c.Replace(X.Block(init, forStmt))
+					return
+				}
 				c.InsertBefore(init)
 				c.Replace(forStmt)
 			}
@@ -53,10 +71,7 @@ func (r *yieldRewriter) rewriteRanges(block *ast.BlockStmt) {
 					// >= 1.22 only, but no release, need test
 					if key, ok := r.keyTypingConstRange(n); ok {
 						// for i = range 3, the untyped constant has the type of i, not int
-						factory := r.SeqSelect(cstNewIntegerIterOf)
-						init, forStmt := r.rewriteRangeToForIter(n, X.Call(factory, X.Ident(key.Name), n.X))
-						c.InsertBefore(init)
-						c.Replace(forStmt)
+						do(cstNewIntegerIterOf, X.Ident(key.Name), n.X)
 					} else {
 						do(cstNewIntegerIter, n.X)
 					}
